@@ -342,6 +342,10 @@ struct Model<'a> {
     p: Predicted,
     stack_guard: u32,
     dry: bool,
+    /// the value of a module instance is fixed by the path it was FIRST loaded by (load once): later sightings reuse it
+    memo: BTreeMap<PathBuf, Option<Json>>,
+    /// candidate paths (as spelled, relative to the root) whose existence test fails under a stat fault
+    absent: BTreeSet<String>,
 }
 
 impl Model<'_> {
@@ -349,7 +353,8 @@ impl Model<'_> {
         let sp = spelling.replace("<ROOT>", &self.root.to_string_lossy());
         let path = Path::new(&sp);
         if path.is_absolute() {
-            return if path.exists() { Some(sp) } else { None };
+            let spelled = norm_dots(&path.strip_prefix(self.root).unwrap_or(path).to_string_lossy());
+            return if path.exists() && !self.absent.contains(&spelled) { Some(sp) } else { None };
         }
         let mut cands: Vec<PathBuf> = Vec::new();
         if let Some(imp) = importer_loaded {
@@ -362,7 +367,9 @@ impl Model<'_> {
         }
         for (k, c) in cands.iter().enumerate() {
             let full = if c.is_absolute() { c.clone() } else { self.root.join(c) };
-            if full.exists() {
+            // the shim names a probed path by its spelling relative to the root (also when it was given absolute)
+            let spelled = norm_dots(&full.strip_prefix(self.root).unwrap_or(&full).to_string_lossy());
+            if full.exists() && !self.absent.contains(&spelled) {
                 if importer_loaded.is_some() && k == 0 && cands.len() > 1 {
                     // does a -J copy exist as well? then the importer's directory shadowed it
                     if cands[1..].iter().any(|c2| self.root.join(c2).exists()) {
@@ -410,7 +417,7 @@ impl Model<'_> {
             let reprs = vec![loaded.to_string()];
             return self.body(&m, Some(loaded), &reprs);
         }
-        self.by_canon.entry(canon).or_insert_with(|| m.id.clone());
+        self.by_canon.entry(canon.clone()).or_insert_with(|| m.id.clone());
         let paths = self.p.instances.entry(m.id.clone()).or_default();
         if !paths.contains(&loaded.to_string()) {
             paths.push(loaded.to_string());
@@ -419,8 +426,16 @@ impl Model<'_> {
             }
         }
         let _ = first;
-        let reprs = vec![loaded.to_string()];
-        self.body(&m, Some(loaded), &reprs)
+        if let Some(v) = self.memo.get(&canon) {
+            return v.clone();
+        }
+        // a module given as --ext-code-file was loaded by that spelling before anything ran
+        let ext_path = self.w.ext_files.iter().map(|(_, p)| p.clone()).find(|p| self.rel_canon(p).map(|(c, _)| c == canon).unwrap_or(false));
+        let first_loaded = ext_path.unwrap_or_else(|| loaded.to_string());
+        let reprs = vec![first_loaded.clone()];
+        let v = self.body(&m, Some(&first_loaded), &reprs);
+        self.memo.insert(canon, v.clone());
+        v
     }
 
     fn body(&mut self, m: &Module, loaded: Option<&str>, reprs: &[String]) -> Option<Json> {
@@ -510,9 +525,18 @@ impl Model<'_> {
     }
 }
 
+fn norm_dots(p: &str) -> String {
+    p.split('/').filter(|c| !c.is_empty() && *c != ".").collect::<Vec<_>>().join("/")
+}
+
 pub fn predict(w: &C13World, root: &Path) -> Predicted {
+    predict_with(w, root, &BTreeSet::new())
+}
+
+/// Prediction when the existence test of the given spelled candidate paths fails (stat faults).
+pub fn predict_with(w: &C13World, root: &Path, absent: &BTreeSet<String>) -> Predicted {
     let search: Vec<String> = w.jdirs.iter().rev().cloned().collect();
-    let mut m = Model { w, root, search, by_canon: BTreeMap::new(), p: Predicted::default(), stack_guard: 0, dry: false };
+    let mut m = Model { w, root, search, by_canon: BTreeMap::new(), p: Predicted::default(), stack_guard: 0, dry: false, memo: BTreeMap::new(), absent: absent.clone() };
     // --ext-code-file arguments are loaded (not evaluated) before anything runs
     let (loaded, reprs): (Option<String>, Vec<String>) = match &w.main_kind {
         MainKind::File(p) => {
@@ -999,7 +1023,56 @@ pub fn run_one(root_seed: u64, i: u64, max_plans: usize, st: &mut Stats) -> Opti
             }
         }
     }
+    // stat-class faults on candidate paths: the existence test fails, so the statement allows either "treated as
+    // absent" (the search moves on; the model is re-run with that candidate absent) or an error
+    let mut stat_targets: Vec<String> = base.log.iter().filter(|l| l.op == "stat" && l.result.is_ok()).map(|l| l.target.clone()).collect();
+    stat_targets.sort();
+    stat_targets.dedup();
+    frng.shuffle(&mut stat_targets);
+    for t in stat_targets.into_iter().take(3) {
+        let errno = *frng.pick(&["EACCES", "ELOOP", "EIO"]);
+        let rules = vec![Rule::new("stat", &t, "always", &format!("errno:{errno}"))];
+        let out = run_world(&w.world, &rules);
+        st.spawns += 1;
+        st.fault_runs += 1;
+        if out.log.iter().any(|l| l.injected) {
+            bump(&mut st.fault_kinds_fired, &format!("stat:{errno}"));
+        }
+        if let Err(v) = check_stat_run(&w, &rules, &t, &out, i) {
+            let again = run_world(&w.world, &rules);
+            st.spawns += 1;
+            if check_stat_run(&w, &rules, &t, &again, i).is_err() {
+                return Some(v);
+            }
+        }
+    }
     None
+}
+
+fn check_stat_run(w: &C13World, rules: &[Rule], target: &str, out: &RunOut, i: u64) -> Result<(), Violation> {
+    if crate::c12::has_panic(&out.stderr) || out.timed_out || out.signal.is_some() || !matches!(out.exit, Some(0) | Some(1)) {
+        return Err(violation(w, rules, "I5", "stat-fault:abnormal-exit", &format!("exit {:?} signal {:?} under a stat fault on {target}", out.exit, out.signal), i, out, false));
+    }
+    for (id, n) in eval_counts(&out.stderr) {
+        if n > 1 {
+            return Err(violation(w, rules, "P2", "stat-fault:module-evaluated-twice", &format!("module {id} was evaluated {n} times"), i, out, false));
+        }
+    }
+    if out.exit == Some(1) {
+        // reported as an error: allowed, provided nothing reached stdout
+        if !out.stdout.is_empty() {
+            return Err(violation(w, rules, "P5", "stat-fault:stdout-on-failure", "stdout not empty although the run failed", i, out, false));
+        }
+        return Ok(());
+    }
+    // treated as absent: the output must be what the model predicts without that candidate
+    let absent: BTreeSet<String> = [norm_dots(target.strip_prefix("path:").unwrap_or(target))].into_iter().collect();
+    let root = PathBuf::from(&out.root);
+    let pred = predict_with(w, &root, &absent);
+    match check_fault_free(w, out, &pred) {
+        Ok(()) => Ok(()),
+        Err((inv, class, msg)) => Err(violation(w, rules, &inv, &format!("stat-fault:{class}"), &format!("(existence test of {target} failing) {msg}"), i, out, false)),
+    }
 }
 
 pub fn replay(scenario: &Json) -> Result<Option<Violation>, String> {
@@ -1012,6 +1085,10 @@ pub fn replay(scenario: &Json) -> Result<Option<Violation>, String> {
     }
     if plan.is_empty() {
         return Ok(None);
+    }
+    if plan[0].op == "stat" {
+        let out = run_world(&w.world, &plan);
+        return Ok(check_stat_run(&w, &plan, &plan[0].target.clone(), &out, 0).err());
     }
     let file = plan[0].target.strip_prefix("path:").unwrap_or("").to_string();
     let hard = plan.iter().any(|r| r.act.starts_with("errno:"));
